@@ -139,8 +139,12 @@ def owners_of(S):
 # ---------------------------------------------------------------------------------------------
 NAMES = ['bob', 'opp', 'adm', 'root', 'eve', 'mal', 'Bob', 'BOB', 'zed']
 HOSTILE_NAMES = [' bob', 'bob ', 'x\n  capability owner', 'y\r  capability owner', 'a\tb', '', 'a!b@c', 'eve!e@evil.host',
+                 # the other characters str.splitlines() breaks at (the file reader must not)
+                 'v\x0b  capability owner', 'f\x0c  capability owner', 'g\x1c  capability owner', 'h\x1d  capability owner',
+                 'i\x1e  capability owner', 'n\x85  capability owner', 'l\u2028  capability owner', 'p\u2029  capability owner',
                  'é', 'n m', '\x0bv', 'x\n', '*', 'root\n', ' ', 'owner']
 CAPS = ['owner', 'admin', 'trusted', 'foo', 'bar', '-foo', '--foo', '-admin', '-owner', 'OWNER', 'Owner', 'oWNER', 'FOO[',
+        '--owner', '--OWNER', '----owner', '--admin', '#chan,--op', '#other,owner', '#other,foo', '#other,-foo',
         '#chan,op', '#chan,foo', '#chan,-foo', '#chan,owner', '#other,op', 'user.register', '-user.register', '-register', '-user',
         '-add', '-admin.capability', 'admin.capability.add', 'halfop', 'op']
 HOSTILE_CAPS = [' owner', 'owner ', '\towner', 'owner\n', '\nowner', 'own er', '', ' ', '\x0bowner', 'owner\x0c', '\xa0owner',
@@ -355,6 +359,17 @@ def run_history(b, r, n_steps, out, hist_id):
                 msgs.append('account %d gained %s through %s' % (i, sorted(gained), k))
             elif guard is None or not guard[2]:
                 msgs.append('account %d gained %s through %s by %s who was not entitled' % (i, sorted(gained), k, actor))
+            elif k == 'capAdd' and gained != {guard[1]}:
+                # the caller was entitled to grant exactly the (lower-cased) capability they named
+                msgs.append('account %d gained %s through capAdd of %r by %s' % (i, sorted(gained), guard[1], actor))
+            elif k == 'chanCapAdd':
+                # holding #chan,op entitles to capabilities of #chan only
+                want = b.ircutils.toLower(args[0])
+                for x in gained:
+                    ch = x.split(',', 1)[0] if ircdb.isChannelCapability(x) else None
+                    if ch is None or b.ircutils.toLower(ch) != want:
+                        msgs.append('account %d gained %r through chanCapAdd on %r by %s (entitled for that channel only)'
+                                    % (i, x, args[0], actor))
         changed = enc_state(cur) != enc_state(prev)
         tags = [k] + (['changed'] if changed else []) + (['ok'] if ok else [])
         c = Case({'history': hist_id, 'step': si, 'trail': list(trail)}, impl=('1' if ok else '0') + '\t' + enc_state(cur),
